@@ -28,6 +28,12 @@ def run(ctx):
     clilib.stream(ctx, "cliverdict", gen.cliverdict_lines(ctx.rng.fork("cliverdict"), 5, 3, 400 if ctx.quick else 8000, (-1, 0, 1), 5, 5, 20, True),
                   "cmr-balanced: verdict line vs. the definition-level oracle on the matrix parsed from the input bytes",
                   lambda c: gen.CLIVERDICT_CODES.get(c, str(c)))
+    import os as _os
+    _cp = _os.path.join(vlib.VERIF, "tools", "corpus", "C17.balanced_cert.txt")
+    if _os.path.exists(_cp):
+        ctx.stream("balanced_cert", [l.strip() for l in open(_cp) if l.strip() and not l.startswith("#")],
+                   "balanced_cert: corpus of earlier failures (run first)", describe=lambda c: gen.BALANCED_CERT_CODES.get(c, str(c)),
+                   nontrivial=lambda l, r: True)
     ctx.stream("balanced_cert", gen.balanced_cert_lines(ctx.rng.fork("balanced_cert"), 1500 if ctx.quick else 40000),
                "CMRbalancedTest on certified totally unimodular matrices of every size (network by digraph, series-parallel by the "
                "reduction model; TU => balanced is proved: TuBalanced.v)",
